@@ -11,6 +11,7 @@ import (
 	"sort"
 	"strconv"
 	"strings"
+	"sync"
 
 	"golang.org/x/tools/go/packages"
 
@@ -346,6 +347,9 @@ const qStepLimit = 40000000
 // qExactMaxLogN: up to this ring degree the transforms are executed with every loop and index concrete (one abstract
 // cell per coefficient, no assumption on the loops); above it layer by layer.
 const qExactMaxLogN = 9
+
+// qExactMaxLogNThorough: the same bound in the thorough tier.
+const qExactMaxLogNThorough = 17
 
 var qPrimRange = regexp.MustCompile(`between 0 and (\d+)\s*\*\s*q\s*-\s*(\d+)`)
 
@@ -1980,57 +1984,75 @@ func scanQRangeNTT(c *core.Ctx, known map[*types.Func]qitv) []ob {
 				worstAll := qBot
 				ranges := map[string][]int{}
 				var order []string
+				type runRes struct {
+					res   qitv
+					probs []qProblem
+				}
+				results := make([]runRes, 21)
+				var wg sync.WaitGroup
+				sem := make(chan struct{}, 16)
 				for logN := 3; logN <= 20; logN++ {
-					exact := logN <= qExactMaxLogN
-					q := &qInterp{c: c, info: info, decls: decl, cells: map[string]qitv{}, exact: exact}
-					if exact {
-						q.slen = map[string]int64{}
-					}
-					fr := newQFrame()
-					for i, s := range slices {
-						fr.sym[info.Defs[s]] = s.Name
-						fr.base[info.Defs[s]] = ival{true, 0}
-						if i != 1 {
-							q.cells[s.Name] = qbelow(1)
+					wg.Add(1)
+					sem <- struct{}{}
+					go func(logN int) {
+						defer wg.Done()
+						defer func() { <-sem }()
+						exact := logN <= qExactMaxLogN || (c.Tier == "thorough" && logN <= qExactMaxLogNThorough)
+						q := &qInterp{c: c, info: info, decls: decl, cells: map[string]qitv{}, exact: exact}
+						if exact {
+							q.slen = map[string]int64{}
 						}
-						if exact && i < 2 {
-							q.slen[s.Name] = 1 << uint(logN)
-						}
-					}
-					fr.n[info.Defs[nParam]] = ival{true, 1 << uint(logN)}
-					fr.u[info.Defs[qParam]] = qmul(1)
-					for _, o := range others {
-						if isUint64(info.TypeOf(o)) {
-							if strings.Contains(strings.ToLower(o.Name), "constant") {
-								fr.u[info.Defs[o]] = qTop
-							} else {
-								fr.u[info.Defs[o]] = qbelow(1)
+						fr := newQFrame()
+						for i, s := range slices {
+							fr.sym[info.Defs[s]] = s.Name
+							fr.base[info.Defs[s]] = ival{true, 0}
+							if i != 1 {
+								q.cells[s.Name] = qbelow(1)
+							}
+							if exact && i < 2 {
+								q.slen[s.Name] = 1 << uint(logN)
 							}
 						}
-					}
-					q.block(fr, fd.Body.List)
-					if q.steps > qStepLimit {
-						q.problem(fd.Pos(), "budget", "abstract execution exceeded its step budget")
-					}
-					// the result: every coefficient of the output
-					res := qBot
-					if v, ok := q.cells[outSym]; ok {
-						res = v
-					}
-					ncells := 0
-					for k, v := range q.cells {
-						if strings.HasPrefix(k, outSym+"#") {
-							res = res.join(v)
-							ncells++
+						fr.n[info.Defs[nParam]] = ival{true, 1 << uint(logN)}
+						fr.u[info.Defs[qParam]] = qmul(1)
+						for _, o := range others {
+							if isUint64(info.TypeOf(o)) {
+								if strings.Contains(strings.ToLower(o.Name), "constant") {
+									fr.u[info.Defs[o]] = qTop
+								} else {
+									fr.u[info.Defs[o]] = qbelow(1)
+								}
+							}
 						}
-					}
-					if exact && ncells != 1<<uint(logN) {
-						q.problem(fd.Pos(), "coverage", "%d of the %d coefficients of %s were stored", ncells, 1<<uint(logN), outSym)
-					}
-					if res.bot {
-						res = qTop
-					}
-					for _, p := range q.probs {
+						q.block(fr, fd.Body.List)
+						if q.steps > qStepLimit {
+							q.problem(fd.Pos(), "budget", "abstract execution exceeded its step budget")
+						}
+						// the result: every coefficient of the output
+						res := qBot
+						if v, ok := q.cells[outSym]; ok {
+							res = v
+						}
+						ncells := 0
+						for k, v := range q.cells {
+							if strings.HasPrefix(k, outSym+"#") {
+								res = res.join(v)
+								ncells++
+							}
+						}
+						if exact && ncells != 1<<uint(logN) {
+							q.problem(fd.Pos(), "coverage", "%d of the %d coefficients of %s were stored", ncells, 1<<uint(logN), outSym)
+						}
+						if res.bot {
+							res = qTop
+						}
+						results[logN] = runRes{res, q.probs}
+					}(logN)
+				}
+				wg.Wait()
+				for logN := 3; logN <= 20; logN++ {
+					res := results[logN].res
+					for _, p := range results[logN].probs {
 						msg := fmt.Sprintf("N=2^%d: %s (%s)", logN, p.msg, c.Rel(p.pos))
 						if len(bad) < 6 {
 							bad = append(bad, msg)
